@@ -89,6 +89,7 @@ def run(ctx: Ctx):
     # D4 enter call sites, D5 transition data flow and adoption
     rules.rule_enter_sites(ctx, KINDS, "D4")
     ctx.attempt(rules.rule_activity_writes, ctx, "D4")
+    ctx.attempt(rules.rule_acquire_effective, ctx, "D1")
     res_holders = {sc.name for sc in states.state_classes(repo) if rules.released_kinds(sc, KINDS)}
     ctx.attempt(rules.rule_enter_installs, ctx, "D4", "TS.enter-installs", res_holders)
     # a dropped state matters here only if the call that produced it can take or give back a plug, a queue slot or a stall
